@@ -12,10 +12,15 @@ lint diagnostics (wrong scope, wrong type, invalid return state, undeclared vari
 """
 
 ANN = "\x00"      # marks an annotation lexeme (rendered on its own line)
+ANT = "\x01"      # marks a TRAILING annotation lexeme (`stmt; // falco-ignore`): stays on the line of the statement
 
 
 def ann(text):
     return ANN + text
+
+
+def ant(text):
+    return ANT + text
 
 
 class DecorGen:
@@ -44,6 +49,9 @@ class DecorGen:
         r = self.r
         k = r.random()
         if depth <= 0 or k < 0.3:
+            if r.random() < 0.12:
+                self._c("expr:idarg-call")
+                return r.choice([["header.get", "(", "req", ",", '"X-Test"', ")"], ["table.lookup", "(", "t1", ",", '"k2"', ")"]])
             return [r.choice([self.sval(), self.hdr(scope), "req.url", "req.url.path"])]
         if k < 0.45:
             self._c("expr:juxtaposition")
@@ -61,8 +69,17 @@ class DecorGen:
         if k < 0.93:
             self._c("expr:if")
             return ["if", "("] + self.cond(scope, depth - 1) + [","] + self.sexpr(scope, 0) + [","] + self.sexpr(scope, 0) + [")"]
-        self._c("expr:userfunc")
-        return ["fs", "(", ")"]
+        if k < 0.965:
+            self._c("expr:userfunc")
+            return ["fs", "(", ")"]
+        self._c("expr:idarg-call")
+        return r.choice([
+            ["header.get", "(", "req", ",", '"X-Test"', ")"],
+            ["header.get", "(", "req", ",", '"User-Agent"', ")"],
+            ["table.lookup", "(", "t1", ",", '"k"', ")"],
+            ["table.lookup", "(", "t1", ",", self.hdr(scope), ",", '"dflt"', ")"],
+            ["querystring.get", "(", "req.url", ",", '"y"', ")"],
+        ])
 
     def cond(self, scope, depth=2):
         r = self.r
@@ -82,6 +99,13 @@ class DecorGen:
             if m < 0.8:
                 self._c("cond:intcmp")
                 return ["std.strlen", "("] + self.sexpr(scope, 0) + [")", r.choice([">", "<", ">=", "<=", "==", "!="]), str(r.randint(0, 5))]
+            if m < 0.86:
+                self._c("cond:idarg-call")
+                return r.choice([
+                    ["table.contains", "(", "t1", ",", r.choice(['"k"', '"nope"']), ")"],
+                    ["ratelimit.check_rate", "(", '"c1"', ",", "rc1", ",", "1", ",", "10", ",", "100", ",", "pb1", ",", "1m", ")"],
+                    ["ratelimit.penaltybox_has", "(", "pb1", ",", '"e"', ")"],
+                ])
             if m < 0.9:
                 return ["req.restarts", "==", "0"]
             return [self.hdr(scope), r.choice(["==", "!="])] + self.sexpr(scope, 1)
@@ -140,14 +164,23 @@ class DecorGen:
         if k < 0.55 and scope != "any":
             self._c("stmt:call")
             return ["call", "helper", ";"]
-        if k < 0.58 and scope in ("recv",):
+        if k < 0.58:
             self._c("stmt:funcstmt")
-            return ["std.collect", "(", "req.http.A", ")", ";"]
+            return r.choice([
+                ["std.collect", "(", "req.http.A", ")", ";"],
+                ["header.set", "(", "req", ",", '"N-1"', ","] + self.sexpr(scope, 0) + [")", ";"],
+                ["header.unset", "(", "req", ",", '"N-2"', ")", ";"],
+                ["header.filter_except", "(", "req", ",", '"Cookie"', ",", '"A"', ",", '"B"', ",", '"X-Test"', ",", '"User-Agent"', ",", '"Host"', ")", ";"],
+                ["ratelimit.penaltybox_add", "(", "pb1", ",", '"e"', ",", "2m", ")", ";"],
+                ["set", "req.http.RC", "=", "ratelimit.ratecounter_increment", "(", "rc1", ",", '"e"', ",", "1", ")", ";"],
+            ])
         if k < 0.62:
             self._c("stmt:goto")
             self.nvar += 1
             lab = "L%d" % self.nvar
             return ["goto", lab, ";", "set", self.settable(scope), "=", '"skipped"', ";", lab + ":"]
+        if k < 0.67:
+            return self.ignored(scope)
         if k < 0.80 and depth > 0:
             self._c("stmt:if")
             out = ["if", "("] + self.cond(scope) + [")", "{"] + self.block(scope, depth - 1) + ["}"]
@@ -183,6 +216,34 @@ class DecorGen:
         if scope == "fetch":
             return ["set", "beresp.ttl", "=", r.choice(["10s", "1m", "0s"]), ";"]
         return ["set", "req.http.T", "=", '"t"', ";"]
+
+    def ignored(self, scope):
+        """a statement that raises lint diagnostics, under an ignore directive that hides them"""
+        r = self.r
+        if r.random() < 0.75:
+            # diagnostics at lint time, harmless at run time: the simulation goes on
+            bad = r.choice([["set", "req.http.X", "=", "10", ";"],
+                            ["declare", "local", "var.unused%d" % r.randint(10, 99), "STRING", ";"],
+                            ["set", "req.http.IG", "=", "1.5", ";"],
+                            ["set", "req.http.X", "=", "req.restarts", ";"]])
+        else:
+            bad = self.injected(scope)
+            while bad[0] in ("return", "restart", "error", "if"):
+                bad = self.injected(scope)
+        k = r.random()
+        if k < 0.45:
+            self._c("ignore:next-line")
+            d = r.choice(["# falco-ignore-next-line", "// falco-ignore-next-line", "/* falco-ignore-next-line */"])
+            return [ann(d)] + bad
+        if k < 0.6:
+            self._c("ignore:next-line-rules")
+            return [ann("# falco-ignore-next-line operator/assignment, unused/variable, function/arguments")] + bad
+        if k < 0.8:
+            self._c("ignore:range")
+            mid = ["set", "req.http.IG", "=", "10", ";"] if r.random() < 0.5 else []
+            return [ann("// falco-ignore-start")] + bad + mid + [ann("// falco-ignore-end")]
+        self._c("ignore:this-line")
+        return bad + [ant(r.choice(["// falco-ignore", "# falco-ignore", "/* falco-ignore */"]))]
 
     def injected(self, scope):
         """statements that make the linter report something"""
@@ -224,8 +285,14 @@ class DecorGen:
             t += ["}"]
         t += ["acl", "internal", "{", '"10.0.0.0"', "/", "8", ";", "!", '"10.1.0.0"', "/", "16", ";", '"192.168.0.1"', ";", "}"]
         t += ["table", "t1", "{", '"k"', ":", '"v"', ",", '"k2"', ":", '"v2"', ",", "}"]
-        if r.random() < 0.5:
+        t += ["penaltybox", "pb1", "{", "}", "ratecounter", "rc1", "{", "}"]
+        m = r.random()
+        if m < 0.35:
             t += [ann("# @scope: recv, fetch, deliver, miss, pass, hit, error, log, hash")]
+        elif m < 0.6:
+            # a restricted scope annotation: calls from other subroutines and scope-bound variables now raise diagnostics
+            self._c("annot:restricted-scope")
+            t += [ann(r.choice(["# @scope: recv, fetch", "// @scope: deliver", "/* @scope: recv */", "# @recv, deliver"]))]
         t += ["sub", "helper", "{"] + self.block("any", 1) + ["set", "req.http.T1", "=", "table.lookup", "(", "t1", ",", '"k"', ")", ";", "}"]
         t += ["sub", "fs", "STRING", "{", "return", r.choice(['"fs"', "req.http.A"]), ";", "}"]
         order = ["recv", "hash", "hit", "miss", "pass", "fetch", "error", "deliver", "log"]
@@ -261,6 +328,9 @@ class DecorGen:
             elif scope == "error":
                 t += ["synthetic", '"err"', ";", "return", "(", "deliver", ")", ";"]
             elif scope == "deliver":
+                # final header values become part of the response
+                for h in ("A", "B", "T", "T1", "N-0", "N-1", "N-2", "N-3", "R", "RC", "IG"):
+                    t += ["set", "resp.http.Final-" + h, "=", "req.http." + h, ";"]
                 t += ["return", "(", "deliver", ")", ";"]
             elif scope == "log":
                 pass
@@ -269,6 +339,8 @@ class DecorGen:
 
 
 # ------------------------------------------------------------------ rendering
+import re
+
 ORDINARY = ["/* c */", "/* lookup */", "/*x*/", "/* multi\n   line */", "/* # not-a-macro */", "/**/"]
 LINE = ["# plain", "// plain", "# scope: recv", "#", "// return (pass);", "# TODO: x"]
 
@@ -281,6 +353,10 @@ def render(tokens, gaps):
         g = gaps[i]
         if tk.startswith(ANN):
             out.append(g + "\n" + tk[1:] + "\n")
+        elif tk.startswith(ANT):
+            # no line break (hence no line comment) may separate a trailing directive from its statement
+            g = " ".join(p for p in re.findall(r"/\*[^\n]*?\*/", g)) if "/*" in g else ""
+            out.append(" " + g + " " + tk[1:] + "\n")
         else:
             out.append(g + tk)
     out.append(gaps[len(tokens)])
@@ -296,7 +372,9 @@ def base_gaps(tokens):
             ind = max(0, ind - 1)
         if i == 0:
             g = ""
-        elif prev in (";", "{", "}") or prev.startswith(ANN) or prev.endswith(":") and prev != ":" or prev == ":" :
+        elif prev.startswith((ANN, ANT)):
+            g = "  " * ind               # the annotation lexeme ends its own line
+        elif prev in (";", "{", "}") or prev.startswith(ANN) or prev.startswith(ANT) or prev.endswith(":") and prev != ":" or prev == ":" :
             g = "\n" + "  " * ind
         else:
             g = " "
@@ -322,7 +400,9 @@ def decorate(tokens, rng, style):
         for i, tk in enumerate(tokens):
             # inside return ( ... ), around operators, between else and if, argument lists, switch cases
             if tk in ("(", ")", ",", "==", "!=", "~", "!~", "&&", "||", "+", "=", "+=", ":", "case", "default", "if", "else",
-                      "return", "!", "/", "break", "fallthrough", "{", "}"):
+                      "return", "!", "/", "break", "fallthrough", "{", "}", ";", "call", "goto", "set", "unset", "remove",
+                      "add", "log", "declare", "local", "error", "synthetic", "esi", "restart", "sub", "backend", "acl",
+                      "table", "director", "penaltybox", "ratecounter", "switch") or tk.startswith((ANN, ANT)):
                 focus.add(i)
                 focus.add(i + 1)
     for i in range(n + 1):
